@@ -505,3 +505,61 @@ pub fn rec_corrupt(a: &Args, out: &mut Out) {
         emit("burst", tried, acc, del, out);
     }
 }
+
+// ---------------------------------------------------------------- replay of spec-generated behaviours (Gen_Stream)
+
+/// Each input line is one behaviour of the Stream specification in the real profile: the stream,
+/// the schedule of Feed / Scan operations with the scanner result the SPEC expects for every
+/// scan, and the expected final state.  The behaviour is stepped through the real next_msg_frame
+/// with the caller protocol of C06; every disagreement is written out.
+pub fn replay_stream(a: &Args, out: &mut Out) {
+    let input = std::fs::read_to_string(a.str("in", "")).expect("vectors");
+    let mut nb = 0usize;
+    let mut nscan = 0usize;
+    for (vi, line) in input.lines().enumerate() {
+        let v: J = match serde_json::from_str(line) {
+            Ok(v) => v,
+            Err(_) => continue,
+        };
+        nb += 1;
+        let stream: Vec<u8> = v["stream"].as_array().unwrap().iter().map(|x| x.as_u64().unwrap() as u8).collect();
+        let mut pending: Vec<u8> = vec![];
+        let mut fed = 0usize;
+        let mut base = 0usize;
+        let mut delivered: Vec<(usize, usize)> = vec![];
+        let mut bad = false;
+        for (si, op) in v["ops"].as_array().unwrap().iter().enumerate() {
+            if op["op"] == "feed" {
+                let n = op["n"].as_u64().unwrap() as usize;
+                pending.extend(&stream[fed..fed + n]);
+                fed += n;
+            } else {
+                nscan += 1;
+                let o = scan_obs(&pending);
+                let consumed = o["consumed"].as_i64().unwrap_or(-1);
+                let at = o["at"].as_i64().unwrap_or(-1);
+                let len = o["len"].as_i64().unwrap_or(0);
+                // the spec reports frame.at 1-based (0 = none)
+                let exp = (op["consumed"].as_i64().unwrap(), op["at"].as_i64().unwrap() - 1, op["len"].as_i64().unwrap());
+                if (consumed, at, len) != exp {
+                    out.emit(json!({"ev": "Mismatch", "behaviour": vi, "step": si, "what": "scan", "expected": [exp.0, exp.1, exp.2], "got": [consumed, at, len],
+                        "pending": bytes_json(&pending), "vector": v}));
+                    bad = true;
+                    break;
+                }
+                if at >= 0 {
+                    delivered.push((base + at as usize + 1, len as usize));
+                }
+                pending.drain(..consumed as usize);
+                base += consumed as usize;
+            }
+        }
+        if !bad {
+            let exp_del: Vec<(usize, usize)> = v["delivered"].as_array().unwrap().iter().map(|p| (p[0].as_u64().unwrap() as usize, p[1].as_u64().unwrap() as usize)).collect();
+            if exp_del != delivered || v["base"].as_u64().unwrap() as usize != base || v["fed"].as_u64().unwrap() as usize != fed {
+                out.emit(json!({"ev": "Mismatch", "behaviour": vi, "step": -1, "what": "final", "expected": [v["delivered"].clone(), v["base"].clone()], "got": [format!("{:?}", delivered), base], "vector": v}));
+            }
+        }
+    }
+    out.emit(json!({"ev": "ReplaySummary", "behaviours": nb, "scans": nscan}));
+}
